@@ -379,7 +379,121 @@ func (it *bcInterp) expr(fd *FuncDecl, e ast.Expr, env bcEnv) (any, error) {
 		}
 		return res[0], nil
 	}
+	if ix, ok := e.(*ast.IndexExpr); ok {
+		// table[c]: a package-level array/slice/map declared with a composite literal and never assigned to
+		if v, ok, err := it.tableLookup(fd, ix, env); ok || err != nil {
+			return v, err
+		}
+	}
 	return nil, fmt.Errorf("expression %T is outside the byte-class fragment", e)
+}
+
+// tableLookup evaluates an index into a read-only package-level literal table.
+func (it *bcInterp) tableLookup(fd *FuncDecl, ix *ast.IndexExpr, env bcEnv) (any, bool, error) {
+	info := fd.Pkg.TypesInfo
+	id, ok := ix.X.(*ast.Ident)
+	if !ok {
+		return nil, false, nil
+	}
+	obj, ok := info.Uses[id].(*types.Var)
+	if !ok || obj.Parent() != obj.Pkg().Scope() {
+		return nil, false, nil
+	}
+	idx, err := it.expr(fd, ix.Index, env)
+	if err != nil {
+		return nil, true, err
+	}
+	// find the declaration and make sure nothing in the package writes the table
+	var lit *ast.CompositeLit
+	written := false
+	for _, f := range fd.Pkg.Syntax {
+		for _, d := range f.Decls {
+			gd, ok := d.(*ast.GenDecl)
+			if !ok {
+				continue
+			}
+			for _, sp := range gd.Specs {
+				vs, ok := sp.(*ast.ValueSpec)
+				if !ok {
+					continue
+				}
+				for i, n := range vs.Names {
+					if info.Defs[n] == types.Object(obj) && i < len(vs.Values) {
+						lit, _ = vs.Values[i].(*ast.CompositeLit)
+					}
+				}
+			}
+		}
+		ast.Inspect(f, func(n ast.Node) bool {
+			switch x := n.(type) {
+			case *ast.AssignStmt:
+				for _, l := range x.Lhs {
+					base := l
+					if ie, ok := base.(*ast.IndexExpr); ok {
+						base = ie.X
+					}
+					if bid, ok := base.(*ast.Ident); ok && info.Uses[bid] == types.Object(obj) {
+						written = true
+					}
+				}
+			case *ast.IncDecStmt:
+				if ie, ok := x.X.(*ast.IndexExpr); ok {
+					if bid, ok := ie.X.(*ast.Ident); ok && info.Uses[bid] == types.Object(obj) {
+						written = true
+					}
+				}
+			}
+			return true
+		})
+	}
+	if lit == nil || written {
+		return nil, true, fmt.Errorf("table %s is not a read-only literal", id.Name)
+	}
+	var def any = false
+	switch u := obj.Type().Underlying().(type) {
+	case *types.Array:
+		def = zeroOf(u.Elem())
+	case *types.Slice:
+		def = zeroOf(u.Elem())
+	case *types.Map:
+		def = zeroOf(u.Elem())
+	}
+	pos := int64(0)
+	for _, el := range lit.Elts {
+		var key any = pos
+		val := el
+		if kv, ok := el.(*ast.KeyValueExpr); ok {
+			k, err := it.expr(fd, kv.Key, env)
+			if err != nil {
+				return nil, true, err
+			}
+			key = k
+			val = kv.Value
+			if ki, ok := k.(int64); ok {
+				pos = ki
+			}
+		}
+		pos++
+		if fmt.Sprint(key) == fmt.Sprint(idx) {
+			v, err := it.expr(fd, val, env)
+			return v, true, err
+		}
+	}
+	return def, true, nil
+}
+
+func zeroOf(t types.Type) any {
+	if b, ok := t.Underlying().(*types.Basic); ok {
+		switch {
+		case b.Info()&types.IsBoolean != 0:
+			return false
+		case b.Info()&types.IsInteger != 0:
+			return int64(0)
+		case b.Info()&types.IsString != 0:
+			return ""
+		}
+	}
+	return nil
 }
 
 func funcObjNameEng(f *types.Func) string {
